@@ -50,6 +50,36 @@ def check_notify():
     return {'reproduced': False, 'detail': 'touched script hashes are evicted at a new and at the same height'}
 
 
+def check_every_session_notified():
+    '''every connected session is handed the notification (same touched set, same height_changed flag) - also sessions
+    with no script-hash subscription (they may subscribe to headers only) and sessions that will find nothing to send'''
+    class FakeSession:
+        def __init__(self, subs):
+            self.subs, self.calls = subs, []
+
+        def sub_count(self):
+            return self.subs
+
+        async def notify(self, touched, height_changed):
+            self.calls.append((set(touched), height_changed))
+
+    for height in (100, 101):
+        sm = make_sm()
+        sessions = [FakeSession(0), FakeSession(3), FakeSession(0), FakeSession(1)]
+        sm.sessions = {s: None for s in sessions}
+        sm.db.state.height = height
+        touched = {b'\x01' * 11}
+        asyncio.run(sm._notify_sessions(height, touched))
+        for i, s in enumerate(sessions):
+            if s.calls != [(touched, height != 100)]:
+                return {'reproduced': True, 'input': {'sessions_script_hash_subscriptions': [x.subs for x in sessions], 'height': height,
+                                                      'notified_height': 100},
+                        'detail': f'session {i} ({s.subs} script-hash subscriptions) got {len(s.calls)} notify() calls '
+                                  f'{s.calls!r:.80}, expected one with the touched set and height_changed={height != 100}: a '
+                                  'header-only subscriber never learns the new tip'}
+    return None
+
+
 def check_limited_history():
     for n in (0, 1, 3533, 3534, 3535, 3536, 5000):
         sm = make_sm()
@@ -75,7 +105,7 @@ def check_limited_history():
 def main():
     req = json.loads(sys.stdin.read() or '{}')
     o = req.get('obligation') or ''
-    res = check_limited_history() if 'limited_history' in o else check_notify()
+    res = check_limited_history() if 'limited_history' in o else (check_every_session_notified() or check_notify())
     print(json.dumps(res, default=repr))
 
 
